@@ -8,21 +8,11 @@ def run(ctx):
     da_common.run(ctx, "C08", MODULES)
     # collateral snapshots across a genesis export/import (the import starts a chain whose module account must again hold exactly
     # what the open items record): the genesis suite's round trip, restricted to the rows of the item store
-    import os, re
     from lib import fw
     from checks import c19
-    rows = c19._table()
-    os.makedirs(os.path.join(fw.WORK, "c19"), exist_ok=True)
-    tpath = os.path.join(fw.WORK, "c19", "table-c08-%d.tsv" % os.getpid())
-    open(tpath, "w").write("\n".join("\t".join(r) for r in rows) + "\n")
-    res = fw.corr(ctx, "genesis", 12 if ctx.thorough() else 2, extra_args=["-replay", "table=" + tpath], driver_suite=False)
-    try:
-        os.remove(tpath)
-    except OSError:
-        pass
+    res = c19.roundtrip_rows(ctx, "module=da prefix=PublishedData")
     if res is None:
         return
-    res["oracle_fails"] = [f for f in res["oracle_fails"] if f["check"] == "genesis_roundtrip" and "module=da prefix=PublishedData" in f["detail"]]
     if res.get("stats", {}).get("genesis.da_item_without_collateral", 0) == 0:
         ctx.fail("infra", "genesis suite no longer publishes an item without collateral before the export", "coverage collapsed")
     fw.report_corr(ctx, "genesis", res, known_features=lambda f: {"check": f["check"]})
